@@ -586,9 +586,33 @@ func (f *FnEnc) indexAddr(fr *Frame, st *State, R string, in *ssa.IndexAddr) {
 // elemAddr is the address of element i of a slice based at a.
 func (e *Enc) elemAddr(a Addr, elem types.Type, i string) Addr {
 	if e.l.oneCell(elem) {
-		return Addr{a.Ref, a.Idx, bvadd(a.Sub, i)}
+		return Addr{a.Ref, a.Idx, e.ixadd(a.Sub, i)}
 	}
-	return Addr{a.Ref, bvadd(a.Idx, i), a.Sub}
+	return Addr{a.Ref, e.ixadd(a.Idx, i), a.Sub}
+}
+
+// sliceBase is the address of the first element of s[lo:...] (plain sum:
+// reslicing is not a trigger position).
+func (e *Enc) sliceBase(a Addr, elem types.Type, lo string) Addr {
+	if e.l.oneCell(elem) {
+		return Addr{a.Ref, a.Idx, bvadd(a.Sub, lo)}
+	}
+	return Addr{a.Ref, bvadd(a.Idx, lo), a.Sub}
+}
+
+// ixadd is base+i for element addresses.  With the contract flag `ematch`
+// the sum is wrapped in the function ix (axiom: ix(a,b) = a+b) so that
+// quantified facts about slice elements have arithmetic-free triggers.
+func (e *Enc) ixadd(base, i string) string {
+	if e.ixWrap {
+		if !e.c.ufs["ix"] {
+			e.c.ufs["ix"] = true
+			e.c.raw("(declare-fun ix ((_ BitVec 64) (_ BitVec 64)) (_ BitVec 64))")
+			e.c.raw("(assert (forall ((a!q (_ BitVec 64)) (b!q (_ BitVec 64))) (! (= (ix a!q b!q) (bvadd a!q b!q)) :pattern ((ix a!q b!q)))))")
+		}
+		return "(ix " + base + " " + i + ")"
+	}
+	return bvadd(base, i)
 }
 
 func (f *FnEnc) sliceOp(fr *Frame, st *State, R string, in *ssa.Slice) {
@@ -624,7 +648,7 @@ func (f *FnEnc) sliceOp(fr *Frame, st *State, R string, in *ssa.Slice) {
 		} else {
 			f.safety("slice", R, and("(bvule "+lo+" "+hi+")", "(bvule "+hi+" "+max+")", "(bvule "+max+" "+capv+")"), in.Pos())
 		}
-		a := f.elemAddr(Addr{x.L[0], x.L[1], x.L[2]}, u.Elem(), lo)
+		a := f.sliceBase(Addr{x.L[0], x.L[1], x.L[2]}, u.Elem(), lo)
 		f.setVal(fr, in, Val{T: in.Type(), L: []string{a.Ref, a.Idx, a.Sub, "(bvsub " + hi + " " + lo + ")", "(bvsub " + max + " " + lo + ")"}})
 	case *types.Pointer:
 		arr := u.Elem().Underlying().(*types.Array)
@@ -640,7 +664,7 @@ func (f *FnEnc) sliceOp(fr *Frame, st *State, R string, in *ssa.Slice) {
 		if x.Loc != nil {
 			unsupp("slicing a local array")
 		}
-		a := f.elemAddr(Addr{x.L[0], x.L[1], x.L[2]}, arr.Elem(), lo)
+		a := f.sliceBase(Addr{x.L[0], x.L[1], x.L[2]}, arr.Elem(), lo)
 		f.setVal(fr, in, Val{T: in.Type(), L: []string{a.Ref, a.Idx, a.Sub, "(bvsub " + hi + " " + lo + ")", "(bvsub " + max + " " + lo + ")"}})
 	default:
 		unsupp("Slice on %s", x.T)
@@ -692,7 +716,7 @@ func (f *FnEnc) convert(fr *Frame, st *State, R string, in *ssa.Convert) {
 		if intWidth(sl.Elem()) == 8 {
 			n := "(slen " + x.L[0] + ")"
 			h := f.heap(st, SBV8)
-			inner := "(lambda ((k!l (_ BitVec 64))) (sbyte " + x.L[0] + " k!l))"
+			inner := f.c.lambda(SBV8, "(sbyte "+x.L[0]+" k!l)")
 			z := fmt.Sprintf("((as const %s) %s)", midSort(SBV8), inner)
 			st.heaps[SBV8] = f.c.define("HBV8", heapSort(SBV8), sto(h, ref, z))
 			f.setVal(fr, in, Val{T: to, L: []string{ref, bv64(0), bv64(0), n, n}})
